@@ -104,6 +104,9 @@ def run(st, tier, seed):
             try:
                 out = pipeline.run_pipeline(b, rng, d, fixed_text=fixed_text)
             except pipeline.Stage as e:
+                if e.stage == "finish":
+                    res.violations.append({"what": "finishing from the reloaded .save fails on a valid design of the same compile: %r" % (e.exc,),
+                                           "input": inp, "sig": "C16:finish-from-save-fails", "cmd": "pepper-compiler; pepper-design-spurious; pepper-finish"})
                 res.count("skipped:" + e.stage); continue
             res.evaluations += 1
             if any(k.endswith(".sys") for k in b.texts) or "sup-sequence" in out["pil"]:
